@@ -267,6 +267,22 @@ def gtSuccPre (r : RangeAst) (v : SemVerAst) : Bool :=
   !v.pre.isEmpty && (allComps r).any fun c =>
     c.op == .gt && c.p.pre.isEmpty && c.p.nums == [.n v.major, .n v.minor, .n (v.patch - 1)] && v.patch ≥ 1
 
+/-- An alphanumeric identifier of the form `-[0-9]+`. -/
+def identSigned : Ident → Bool
+  | .num _ => false
+  | .alnum s =>
+    match s.toList with
+    | '-' :: d :: ds => (d :: ds).all Char.isDigit
+    | _ => false
+
+/-- The candidate or an operand has a prerelease identifier of the form `-[0-9]+`
+(the library reads it as a negative number). -/
+def signedIdent (r : RangeAst) (v : SemVerAst) : Bool :=
+  v.pre.any identSigned ||
+  r.any fun a => match a with
+    | .hyphen lo hi => lo.pre.any identSigned || hi.pre.any identSigned
+    | .comps cs => cs.any fun c => c.p.pre.any identSigned
+
 /-- A `<` comparator whose operand has a number after a wildcard. -/
 def ltMidWild (r : RangeAst) : Bool :=
   (allComps r).any fun c => c.op == .lt &&
@@ -337,6 +353,7 @@ def starCollapse (r : RangeAst) : Bool :=
 def classes (r : RangeAst) (v : SemVerAst) : List String :=
   (if pre000 v then (if lt0pre r then ["F-C03-lt0pre"] else ["F-C03-pre000"]) else []) ++
   (if gtSuccPre r v then ["F-C03-gt-succ-pre"] else []) ++
+  (if signedIdent r v then ["F-C03-signed-ident"] else []) ++
   (if hyphenBelow r true then ["F-C03-hyphen-wild"] else []) ++
   (if hyphenBelow r false then ["F-C03-hyphen-inverted"] else []) ++
   (if ltMidWild r then ["F-C03-lt-midwild"] else []) ++
